@@ -274,13 +274,13 @@ func (a *apiSim) c02() {
 // C04 read endpoints
 
 type hdrJSON struct {
-	Hash    string `json:"hash"`
-	Version int32  `json:"version"`
-	Prev    string `json:"prevBlockHash"`
-	Merkle  string `json:"merkleRoot"`
-	Ts      uint32 `json:"creationTimestamp"`
-	Bits    uint32 `json:"difficultyTarget"`
-	Nonce   uint32 `json:"nonce"`
+	Hash    string      `json:"hash"`
+	Version int32       `json:"version"`
+	Prev    string      `json:"prevBlockHash"`
+	Merkle  string      `json:"merkleRoot"`
+	Ts      uint32      `json:"creationTimestamp"`
+	Bits    uint32      `json:"difficultyTarget"`
+	Nonce   uint32      `json:"nonce"`
 	Work    json.Number `json:"work"`
 }
 
